@@ -279,6 +279,7 @@ func runHistory(acts []action, hist []int, maxH uint64, metaKeys []string) resul
 	s := store.New(kv)
 	m := newModel()
 	var trace []string
+	memState := ""
 	for step, ai := range hist {
 		a := acts[ai]
 		trace = append(trace, a.String())
@@ -356,6 +357,8 @@ func runHistory(acts []action, hist []int, maxH uint64, metaKeys []string) resul
 			}
 			continue
 		}
+		// the in-memory part of the state key is taken BEFORE the getters run (a getter may refresh cached state)
+		memState = store.VerifMemState(s)
 		got := observe(ctx, s, maxH, metaKeys)
 		if crashed {
 			nm := old.clone()
@@ -379,7 +382,8 @@ func runHistory(acts []action, hist []int, maxH uint64, metaKeys []string) resul
 			return result{clause: "by-hash", msg: msg, trace: trace}
 		}
 	}
-	return result{key: "img:" + kv.Canon(), trace: trace, nWrites: kv.NumWrites()}
+	// the state key is the durable image plus whatever the store object keeps in memory (nothing, today)
+	return result{key: "img:" + kv.Canon() + "|mem:" + memState, trace: trace, nWrites: kv.NumWrites()}
 }
 
 func TestCheck(t *testing.T) {
@@ -425,7 +429,7 @@ func TestCheck(t *testing.T) {
 	}
 	r.Finish(vf.Coverage{
 		Evaluations: st.Transitions, DistinctNontrivial: st.States, States: st.States, Transitions: st.Transitions,
-		Rule:       "every operation history up to the depth bound over the alphabet (save block h×{same,same-hash-other-signature,other-hash}, set height, update state, set metadata, reopen, crash before the k-th durable write of a save/metadata/state write then reopen), executed on a fresh real DefaultStore; histories are merged when the durable key/value image is identical (the store keeps no other state); distinct = distinct images",
+		Rule:       "every operation history up to the depth bound over the alphabet (save block h×{same,same-hash-other-signature,other-hash}, set height, update state, set metadata, reopen, crash before the k-th durable write of a save/metadata/state write then reopen), executed on a fresh real DefaultStore; histories are merged when the durable key/value image and the in-memory fields of the store object (reflection hook; none today) are identical; distinct = distinct images",
 		Exhaustive: st.DepthDone == depth, Caps: caps,
 		Bounds:     map[string]any{"depth": st.DepthDone, "heights": maxH, "alphabet": len(acts), "metadata_keys": metaKeys, "states_per_level": st.PerLevel},
 	})
